@@ -182,7 +182,12 @@ impl<'de> Deserialize<'de> for OptionWrapper<Inventory> {
                             } else {
                                 match map.next_value::<&str>() {
                                     Ok(value) => {
-                                        if URI::try_from(value).is_err() {
+                                        if value.is_empty() {
+                                            self.result.error(
+                                                ErrorCode::E037,
+                                                "Inventory 'id' must not be blank".to_string(),
+                                            );
+                                        } else if URI::try_from(value).is_err() {
                                             self.result.warn(
                                                 WarnCode::W005,
                                                 format!(
